@@ -13,6 +13,8 @@ streams
   mathmode: stacks of real context frames (group, ArgumentContext, command, math environment, \\ensuremath, \\mbox)
            pushed on a real Context: `Context.isMathMode` vs Model.isMathMode (the decision readArgumentAndSource
            takes before normalising an argument).
+  docsubs: histories of `TeXDocument(config)` creations with `disable-charsub` options in one process: the table of
+           every document and the class table `TeXDocument.defaultCharsubs` afterwards vs Model.createDocs.
   extend : `Node.extend(nodes and fragments, setParent)` on real DOM nodes vs Model.extend (who is re-parented).
   subs   : strings over quotes/dashes/letters: `Node.appendText` with the live substitution list vs Model.applySubs.
   (document level `doc7` in extra_checks: generated documents of the quantifier's grammar with unique
@@ -30,9 +32,9 @@ LEVEL_TEXT = ('Lean 4 theorems over a line-by-line model of the digestion protoc
               'EQUALS the reading of the stream: no loss, no duplication, no reordering; the invariant is proved preserved by paragraphs/norm/digest), *_no_dup_no_reorder (subsequence, unconditional), '
               'parse_total/digest_total (fuel adequacy: parse never runs out of fuel), par_no_par (deep), parent_labels_consistent (deep, unconditional), sections_nest (a unit holds only paragraphs and '
               'units of level strictly between its own and ENDSECTIONS, on sectioning-skeleton streams) + sections_absorb_deeper/sections_stop_at_not_deeper (every stream), paragraphs_partition, '
-              'mathmode_transparent/args_in_math_unsubstituted (argument nesting never changes the math-mode decision taken when an argument is read), extend_noparent_untouched/extend_setparent_labels (scratch fragments of fullTitle/fullTocEntry never re-parent), charsubs_idempotent, charsubs_complete, charsubs_plain, charsubs_scope_nosub/charsubs_never_in_nosub, charsubs_applied_to_text_run, buffered_push_next/flat, parse_well_formed (the clauses together). '
-              'The model is tied to the code by exhaustive frame stacks on the real Context.isMathMode, exhaustive short Node.extend calls on real DOM nodes, and by replaying, for generated documents, every real TeX.parse call (recorded item stream -> tree, shape/order/text/parent links) through the model, '
-              'and the whole statement is checked end-to-end on generated documents with unique marker words (doc7), once after parsing and again after the read-only accesses a renderer makes (titles, toc entries, references, text content, source).')
+              'mathmode_transparent/args_in_math_unsubstituted (argument nesting never changes the math-mode decision taken when an argument is read), extend_noparent_untouched/extend_setparent_labels (scratch fragments of fullTitle/fullTocEntry never re-parent), charsubs_table_per_document/docCharsubs_mem (the substitution table is a per-document copy: no history of earlier documents and disable-charsub options changes what a later document gets), charsubs_idempotent, charsubs_complete, charsubs_plain, charsubs_scope_nosub/charsubs_never_in_nosub, charsubs_applied_to_text_run, buffered_push_next/flat, parse_well_formed (the clauses together). '
+              'The model is tied to the code by exhaustive frame stacks on the real Context.isMathMode, histories of real TeXDocument creations with disable-charsub options, exhaustive short Node.extend calls on real DOM nodes, and by replaying, for generated documents, every real TeX.parse call (recorded item stream -> tree, shape/order/text/parent links) through the model, '
+              'and the whole statement is checked end-to-end on generated documents with unique marker words (doc7), documents processed one after the other in one process, some with a legal disable-charsub option; each tree is checked once after parsing and again after the read-only accesses a renderer makes (titles, toc entries, references, text content, source).')
 LEVEL_NOTE = ('Trusted: Lean kernel (propext, Classical.choice, Quot.sound), translator (levels, defaultCharsubs), the recording harness and its generators, the doc7 oracle, CPython. '
               'Not modelled: the expansion phase that produces the stream (C02/C05), digest overrides outside the model (Array rows/cells, \\verb, bibliography, index) which enter the model as '
               'already-built subtrees and are covered by doc7 only.')
@@ -679,6 +681,14 @@ def generate(ctx):
     for i in range(200 if ctx.tier == 'quick' else 3000):
         t = [rng.choice('gaacmeb') for _ in range(rng.randint(5, 12))]
         yield Case('mathmode', ' '.join(t), {'frames': ''.join(t)})
+    # docsubs: every history of up to 2 documents over single-source options (and none), plus random longer ones
+    opts = [()] + [(x,) for x in ALL_SRC]
+    hists = [h for k in (1, 2) for h in _it.product(opts, repeat=k)]
+    for _ in range(150 if ctx.tier == 'quick' else 3000):
+        hists.append(tuple(tuple(sorted(rng.sample(ALL_SRC, rng.randint(0, 3)))) if rng.random() < 0.6 else ()
+                           for _ in range(rng.randint(2, 6))))
+    for h in hists:
+        yield docsubs_case(h)
     # extend: every receiver kind x flag x short argument list
     shapes = ['n', 'f0', 'f1', 'f2', 'f3']
     for isf, hasp, sp in _it.product('01', repeat=3):
@@ -719,9 +729,35 @@ def corpus():
     # $\\mathbf{\\hat{x'}}$: math, mathbf, ArgumentContext, hat, ArgumentContext
     out.append(Case('mathmode', 'm c a c a', {'frames': 'mcaca'}, 'corpus'))
     out.append(Case('mathmode', 'm b a c a', {'frames': 'mbaca'}, 'corpus'))
+    # --disable-charsub "'" for one document, then a default document
+    out.append(docsubs_case((("'",), ()), 'corpus'))
     # fullTocEntry: scratch fragment, extend([ref, ' ', title fragment], setParent=False)
     out.append(Case('extend', '1 0 0 | n n f2', {'args': ['n', 'n', 'f2'], 'isf': '1', 'hasp': '0', 'sp': '0'}, 'corpus'))
     return out
+
+
+def docsubs_case(hist, origin='gen'):
+    line = ' | '.join(' '.join('.'.join(str(ord(c)) for c in src) for src in d) for d in hist)
+    return Case('docsubs', line, {'hist': [list(d) for d in hist]}, origin)
+
+
+def impl_docsubs(hist):
+    from plasTeX import TeXDocument
+    saved_obj, saved = TeXDocument.defaultCharsubs, list(TeXDocument.defaultCharsubs)
+
+    def show(t):
+        return ','.join('%s>%s' % ('.'.join(str(ord(c)) for c in a) or '-', '.'.join(str(ord(c)) for c in b) or '-') for a, b in t)
+    try:
+        tables = []
+        for d in hist:
+            tables.append(show(new_document(tuple(d)).charsubs))
+        return ';'.join(tables) + '#' + show(TeXDocument.defaultCharsubs)
+    except Exception as e:
+        return 'err:' + type(e).__name__
+    finally:
+        # cases are independent: whatever a case did to the class table is undone after it was observed
+        saved_obj[:] = saved
+        TeXDocument.defaultCharsubs = saved_obj
 
 
 def impl_mathmode(frames):
@@ -786,6 +822,8 @@ def impl(case, aux):
         return impl_mathmode(case.meta['frames'])
     if case.stream == 'extend':
         return impl_extend(case.meta)
+    if case.stream == 'docsubs':
+        return impl_docsubs(case.meta['hist'])
     if case.stream == 'subs':
         from plasTeX import TeXDocument
         doc = TeXDocument()
@@ -810,7 +848,7 @@ def impl(case, aux):
 
 
 def judge(o):
-    if o.case.stream in ('mathmode', 'extend'):
+    if o.case.stream in ('mathmode', 'extend', 'docsubs'):
         o.corr_ok = (o.impl == o.model)
         o.prop_ok = (o.impl == o.spec)
         return
@@ -851,6 +889,8 @@ def nontrivial(o):
         return len(o.case.meta['frames']) >= 2 and any(c in o.case.meta['frames'] for c in 'meb')
     if o.case.stream == 'extend':
         return any(a != 'n' for a in o.case.meta['args'])
+    if o.case.stream == 'docsubs':
+        return len(o.case.meta['hist']) >= 2 and any(o.case.meta['hist'])
     if o.case.stream == 'subs':
         return any(c in o.case.meta['s'] for c in '`\'-')
     return o.model not in ('fuel', 'bad-op') and re.search(r':[esbli]:\d+:', o.case.line) is not None and 'e(' in o.model and ')e(' in o.model
@@ -950,13 +990,31 @@ MARK = re.compile(r'W[a-z]+K')
 SUBST_OUT = set(chr(c) for c in (8220, 8221, 8222, 8216, 8217, 8212, 8211))
 
 
-def doc7_check(src, markers, expect_subs=True):
-    """returns a list of problems (empty = the property holds on this document)"""
-    from plasTeX.TeX import TeX
+QUOTE_SRC = ("``", "''", '"`', '"\'', "`", "'")
+DASH_SRC = ('---', '--')
+
+
+def new_document(disable=()):
+    """a TeXDocument with the default configuration, or with the legal option [document] disable-charsub set"""
     from plasTeX import TeXDocument
+    if not disable:
+        return TeXDocument()
+    from plasTeX.Config import defaultConfig
+    config = defaultConfig()
+    config['document']['disable-charsub'] = list(disable)
+    return TeXDocument(config=config)
+
+
+def doc7_check(src, markers, expect_subs=True, disable=()):
+    """returns a list of problems (empty = the property holds on this document).
+    `disable`: the document is processed with `disable-charsub` set to these sources; substitutions are then
+    only required for the family (quotes / dashes) in which nothing was disabled."""
+    from plasTeX.TeX import TeX
     from plasTeX.DOM import Node
     reset_globals()
-    doc = TeXDocument()
+    doc = new_document(disable)
+    want_quotes = not any(d in QUOTE_SRC for d in disable)
+    want_dashes = not any(d in DASH_SRC for d in disable)
     tex = TeX(doc)
     tex.input(src)
     tex.parse()
@@ -1073,9 +1131,13 @@ def doc7_check(src, markers, expect_subs=True):
     if expect_subs:
         # the exact glyphs the source spelling asks for (the generator writes these spellings only in running text)
         body_text = ''.join(t for t, ns, b in text if b and not ns)
-        for rx, fmt in ((r'(W[a-z]+K)---(W[a-z]+K)', '%s\u2014%s'), (r'(?<!-)(W[a-z]+K)--(W[a-z]+K)', '%s\u2013%s'),
-                        (r'(W[a-z]+K) -- (W[a-z]+K)', '%s \u2013 %s'),
-                        (r"``(W[a-z]+K)''", '\u201c%s\u201d'), (r"(?<!`)`(W[a-z]+K)'(?!')", '\u2018%s\u2019')):
+        for fam, rx, fmt in ((want_dashes, r'(W[a-z]+K)---(W[a-z]+K)', '%s\u2014%s'),
+                             (want_dashes, r'(?<!-)(W[a-z]+K)--(W[a-z]+K)', '%s\u2013%s'),
+                             (want_dashes, r'(W[a-z]+K) -- (W[a-z]+K)', '%s \u2013 %s'),
+                             (want_quotes, r"``(W[a-z]+K)''", '\u201c%s\u201d'),
+                             (want_quotes, r"(?<!`)`(W[a-z]+K)'(?!')", '\u2018%s\u2019')):
+            if not fam:
+                continue
             for m in re.finditer(rx, src):
                 want = fmt % m.groups()
                 if want not in body_text:
@@ -1088,7 +1150,7 @@ def doc7_check(src, markers, expect_subs=True):
                 if any(c in SUBST_OUT for c in s):
                     problems.append('typographic substitution inside verbatim/mathematics: %r' % _ctx(s, SUBST_OUT))
             else:
-                for pat in ("``", "''", '--', '`W', "K'"):
+                for pat in ((("``", "''", '`W', "K'") if want_quotes else ()) + (('--',) if want_dashes else ())):
                     if pat in s:
                         problems.append('running text not substituted: %r' % _ctx(s, [pat]))
                         break
@@ -1103,21 +1165,33 @@ def _ctx(s, pats):
     return ''
 
 
+ALL_SRC = QUOTE_SRC + DASH_SRC
+_history = []      # disable-charsub settings of the documents created so far by doc7 in this process
+
+
 def extra_checks(ctx):
+    """doc7: generated documents against the document-level oracle.  Documents are processed one after the other in
+    this process, as a batch run does; about one in ten is processed with a random legal `disable-charsub` option
+    (its own substitutions are then only required for the untouched family), all others with the default
+    configuration - whatever was processed before must not matter."""
     rng = ctx.rng
     n = 350 if ctx.tier == 'quick' else 6000
     viol, samples = [], []
     ev = nt = 0
-    for src, markers in [(s, MARK.findall(s)) for s in CORPUS_DOCS[:0]]:
-        pass
     for i in range(n):
         g = Gen(rng)
         src = g.document()
+        disable = ()
+        if i % 10 == 3 or (i < 40 and i % 4 == 1):
+            disable = tuple(sorted(rng.sample(ALL_SRC, rng.randint(1, 3))))
+            ctx.count('doc7:disable-charsub')
         ev += 1
+        before = list(_history)
         try:
-            probs = doc7_check(src, g.markers)
+            probs = doc7_check(src, g.markers, disable=disable)
         except Exception as e:
             probs = ['exception %s: %s' % (type(e).__name__, str(e)[:100])]
+        _history.append(list(disable))
         if len(g.features) >= 3:
             nt += 1
         for f in g.features:
@@ -1125,17 +1199,20 @@ def extra_checks(ctx):
         if i < 2:
             samples.append({'doc7': src[:400], 'markers': len(g.markers), 'problems': probs})
         if probs:
-            small = shrink_doc(src, lambda s, c=_cat(probs[0]): _still(s, c))
+            small = shrink_doc(src, lambda s, c=_cat(probs[0]), d=disable: _still(s, c, d))
+            hist = [h for h in before if h]
             viol.append(Violation('document-level oracle doc7: ' + probs[0],
-                                  {'kind': 'failing-input', 'extra': {'tex': small}, 'problems': _problems(small), 'original': src}))
+                                  {'kind': 'failing-input',
+                                   'extra': {'tex': small, 'disable': list(disable), 'processed_before_with_disable_charsub': hist},
+                                   'problems': _problems(small, disable), 'original': src}))
             if len(viol) >= 3:
                 break
     return viol, {'evaluations': ev, 'distinct_nontrivial': nt, 'samples': samples}
 
 
-def _problems(src):
+def _problems(src, disable=()):
     try:
-        return doc7_check(src, MARK.findall(_strip_comments(src)))
+        return doc7_check(src, MARK.findall(_strip_comments(src)), disable=tuple(disable))
     except Exception as e:
         return ['exception %s: %s' % (type(e).__name__, str(e)[:100])]
 
@@ -1168,15 +1245,21 @@ def _balanced(src):
     return all(seg.count('|') % 2 == 0 for seg in src.split('\n') if '\\verb|' in seg)
 
 
-def _still(src, cat=None):
+def _still(src, cat=None, disable=()):
     if not _balanced(src):
         return False
-    ps = _problems(src)
+    ps = _problems(src, disable)
     return bool(ps) if cat is None else any(_cat(p) == cat for p in ps)
 
 
 def replay_extra(ctx, extra):
-    p = _problems(extra['tex'])
+    # the documents processed earlier in the same process (only their configuration can matter)
+    for d in extra.get('processed_before_with_disable_charsub', []):
+        try:
+            doc7_check('\\documentclass{article}\\begin{document}Wa\n\n\\end{document}', ['Wa'], expect_subs=False, disable=tuple(d))
+        except Exception:
+            pass
+    p = _problems(extra['tex'], extra.get('disable', ()))
     for x in p:
         print('  doc7:', x)
     return bool(p)
